@@ -184,16 +184,98 @@ func genLset(r *vh.Rand) map[string]string {
 	}
 }
 
+// ---- adversarial equal-label values: rules with >= 2 equal labels whose values collide under concatenation ----
+// (cluster="a", ns="b") / (cluster="ab", ns missing) / (cluster missing, ns="ab") differ label by label but any
+// index key built from the values without a separator confuses them.
+
+var (
+	advAlphabet  = []string{"", "", "a", "b", "ab", "ba", "aa", "aab", "abb"}
+	advNames     = []string{"cluster", "ns", "zone"}
+	advEqualPool = [][]string{{"cluster", "ns"}, {"cluster", "ns"}, {"ns", "zone"}, {"cluster", "zone"}, {"cluster", "ns", "zone"}, {"zone", "cluster", "ns"}}
+	advSrcPool   = [][]MatcherJ{{{"=", "sev", "crit"}}, {{"=", "sev", "crit"}}, {{"=~", "sev", "crit|warn"}}, {{"!=", "sev", "warn"}}, {}}
+	advTgtPool   = [][]MatcherJ{{{"=", "sev", "warn"}}, {{"=", "sev", "warn"}}, {{"=~", "sev", "crit|warn"}}, {{"!=", "sev", "crit"}}, {}}
+)
+
+func concatValues(m map[string]string, names []string) string {
+	w := ""
+	for _, n := range names {
+		w += m[n]
+	}
+	return w
+}
+
+// resplit cuts w into n consecutive (possibly empty) parts at random positions
+func resplit(r *vh.Rand, w string, n int) []string {
+	cuts := make([]int, n-1)
+	for i := range cuts {
+		cuts[i] = r.Intn(len(w) + 1)
+	}
+	sort.Ints(cuts)
+	parts := make([]string, 0, n)
+	prev := 0
+	for _, c := range cuts {
+		parts = append(parts, w[prev:c])
+		prev = c
+	}
+	return append(parts, w[prev:])
+}
+
+func genAdvLset(r *vh.Rand, rules []RuleJ, have []map[string]string) map[string]string {
+	for {
+		m := map[string]string{}
+		if v := vh.Pick(r, sevs); v != "" {
+			m["sev"] = v
+		}
+		for _, n := range advNames {
+			if v := vh.Pick(r, advAlphabet); v != "" {
+				m[n] = v
+			}
+		}
+		if len(have) > 0 && r.Chance(3, 5) {
+			// same concatenation as an existing label set under some rule's equal list, split differently
+			base := vh.Pick(r, have)
+			eq := sortedUnique(vh.Pick(r, rules).Equal)
+			for i, v := range resplit(r, concatValues(base, eq), len(eq)) {
+				delete(m, eq[i])
+				if v != "" {
+					m[eq[i]] = v
+				}
+			}
+			if r.Chance(1, 2) { // often the opposite side of the rule
+				switch base["sev"] {
+				case "crit":
+					m["sev"] = "warn"
+				case "warn":
+					m["sev"] = "crit"
+				}
+			}
+		}
+		if len(m) > 0 {
+			return m
+		}
+	}
+}
+
 func genCase(r *vh.Rand, maxOps int) Case {
 	c := Case{ProviderGC: vh.Pick(r, provGCs)}
 	nr := vh.Pick(r, []int{1, 1, 1, 2, 2, 3})
+	adversarial := r.Chance(1, 3)
 	for i := 0; i < nr; i++ {
+		if adversarial {
+			c.Rules = append(c.Rules, RuleJ{Src: append([]MatcherJ{}, vh.Pick(r, advSrcPool)...), Tgt: append([]MatcherJ{}, vh.Pick(r, advTgtPool)...), Equal: append([]string{}, vh.Pick(r, advEqualPool)...)})
+			continue
+		}
 		c.Rules = append(c.Rules, RuleJ{Src: genMatchers(r), Tgt: genMatchers(r), Equal: append([]string{}, vh.Pick(r, equalPool)...)})
 	}
 	nl := r.Range(3, 6)
 	seen := map[string]bool{}
-	for len(c.Lsets) < nl {
-		m := genLset(r)
+	for tries := 0; len(c.Lsets) < nl; tries++ {
+		var m map[string]string
+		if adversarial && tries < 200 {
+			m = genAdvLset(r, c.Rules, c.Lsets)
+		} else {
+			m = genLset(r)
+		}
 		k := fmt.Sprint(m)
 		if seen[k] {
 			continue
@@ -284,6 +366,14 @@ func (r ruleM) eqOn(a, b model.LabelSet) bool {
 		}
 	}
 	return true
+}
+
+func (r ruleM) concat(a model.LabelSet) string {
+	w := ""
+	for _, n := range r.equal {
+		w += string(a[model.LabelName(n)])
+	}
+	return w
 }
 
 type result struct {
@@ -394,7 +484,18 @@ func runCase(t *testing.T, c *Case) result {
 					}
 					res.tags["target-side-matches"]++
 					nSame, nExcluded, nWit := 0, 0, 0
+					if len(r.equal) >= 2 {
+						res.tags["target-of-rule-with-2+-equal-labels"]++
+					}
 					for _, s := range firing {
+						if r.src.Matches(s.Labels) && !r.eqOn(s.Labels, ls) && len(r.equal) >= 2 && r.concat(s.Labels) == r.concat(ls) {
+							// a firing source that differs label by label but whose equal-label values concatenate
+							// to the same string: must NOT inhibit
+							res.tags[fmt.Sprintf("concat-equal-but-labelwise-different-source/target-pair(%d equal labels)", len(r.equal))]++
+							if !(r.src.Matches(ls) && r.tgt.Matches(s.Labels)) {
+								res.tags["concat-equal-but-labelwise-different-pair-would-inhibit-if-confused"]++
+							}
+						}
 						if !r.src.Matches(s.Labels) || !r.eqOn(s.Labels, ls) {
 							continue
 						}
@@ -488,7 +589,28 @@ func runCase(t *testing.T, c *Case) result {
 					violate(key, fmt.Sprintf("%s at %s: %v is a target and a firing source with equal labels exists (e.g. label set #%d) but Mutes says false", opDesc, now.UTC().Format(time.RFC3339), ls, firstKey(witness)))
 				case !want && muted:
 					key := "inhibited-without-firing-source"
+					confused := false
+					if byIdx >= 0 {
+						// the reported inhibitor fires and is a source, but does not share the equal-label values
+						for _, s := range firing {
+							if fpIdx[s.Fingerprint()] != byIdx {
+								continue
+							}
+							for _, r := range rules {
+								if r.tgt.Matches(ls) && r.src.Matches(s.Labels) && !r.eqOn(s.Labels, ls) {
+									confused = true
+									key = "inhibited-by-source-with-different-equal-values"
+									if r.concat(s.Labels) == r.concat(ls) {
+										key = "equal-values-confused-by-concatenation"
+									}
+								}
+							}
+						}
+					}
 					for k, a := range lastUpd {
+						if confused {
+							break
+						}
 						if loadPend[k] && a.ResolvedAt(now) {
 							for _, r := range rules {
 								if r.tgt.Matches(ls) && r.src.Matches(a.Labels) && r.eqOn(a.Labels, ls) {
